@@ -264,3 +264,25 @@ func init() {
 	externals["flag.Parse"] = extNop
 	externals["flag.Args"] = func(fr *frame, args []value) value { return []value(nil) }
 }
+
+// File system and MIME table stubs for the CLI harness: extensions map to the
+// media types of Go's built-in table; os.Open always fails with ErrNotExist (the
+// harness only observes how far the command got).
+var mimeByExt = map[string]string{
+	".xml": "text/xml; charset=utf-8", ".svg": "image/svg+xml", ".html": "text/html; charset=utf-8",
+	".htm": "text/html; charset=utf-8", ".json": "application/json", ".png": "image/png",
+	".css": "text/css; charset=utf-8", ".pdf": "application/pdf", ".js": "text/javascript; charset=utf-8", ".gif": "image/gif",
+}
+
+func init() {
+	externals["mime.TypeByExtension"] = func(fr *frame, args []value) value {
+		ext, ok := args[0].(string)
+		if !ok {
+			panic(abortPath{"unsupported", "mime.TypeByExtension of a symbolic extension"})
+		}
+		return mimeByExt[ext]
+	}
+	externals["os.Open"] = func(fr *frame, args []value) value {
+		return tuple{(*value)(nil), fr.i.newError(fr, "open: no such file or directory (stub)")}
+	}
+}
